@@ -17,6 +17,7 @@ import (
 	"os"
 	"runtime"
 	"sync"
+	"sync/atomic"
 	"time"
 
 	"github.com/aldas/go-modbus-client/packet"
@@ -25,6 +26,11 @@ import (
 type memConn struct {
 	kind    int           // 0 = Modbus TCP framing, otherwise RTU framing
 	latency time.Duration // a reply can be read this long after its request was written (slow device)
+	// how long a Read blocks when nothing can be read (default 0.5 ms = the network client's own
+	// per-read deadline; a serial port opened with a long read time-out blocks much longer)
+	blockRead time.Duration
+	// number of Do calls in progress on the client of this case (maintained by the harness)
+	inDo *int32
 
 	mu      sync.Mutex  // protects the recorder itself, not the client under test
 	log     []byte      // every byte written, in arrival order
@@ -37,6 +43,9 @@ type memConn struct {
 	active   int // calls currently inside
 	overlaps int // a call entered while another one was inside: access to the transport not serialised
 	midClose int // Close entered between the write of a request and the read of its reply
+	// a Read / Write / Flush / Set*Deadline call was inside the transport while no Do call was in
+	// progress on the client: a call abandoned by its caller left work behind on the port
+	outsideDo int
 }
 
 // enter / exit bracket every library call; the yields let a second caller in, should the client
@@ -47,8 +56,13 @@ func (c *memConn) enter(isClose bool) {
 		c.overlaps++
 	}
 	c.active++
-	if isClose && (len(c.replies) > 0 || len(c.pending) > 0) {
+	// a Close between the write of a request and the read of its reply, of a Do that is in progress
+	// (what an abandoned call left unread does not make a later Close "mid-exchange")
+	if isClose && (len(c.replies) > 0 || len(c.pending) > 0) && (c.inDo == nil || atomic.LoadInt32(c.inDo) > 0) {
 		c.midClose++
+	}
+	if !isClose && c.inDo != nil && atomic.LoadInt32(c.inDo) == 0 {
+		c.outsideDo++
 	}
 	c.mu.Unlock()
 	runtime.Gosched()
@@ -115,6 +129,16 @@ func concReply(kind int, req []byte) []byte {
 	return append(body, crc16le(body)...)
 }
 
+// the unit that is switched off: requests addressed to it are received and never answered
+const concSilentUnit = 99
+
+func concSilent(kind int, req []byte) bool {
+	if kind == 0 {
+		return len(req) > 6 && req[6] == concSilentUnit
+	}
+	return len(req) > 0 && req[0] == concSilentUnit
+}
+
 // length of the first request in the stream, 0 if it is not complete yet
 func concFrameLen(kind int, w []byte) int {
 	if kind == 0 {
@@ -158,8 +182,10 @@ func (c *memConn) Write(p []byte) (int, error) {
 			if n == 0 {
 				break
 			}
-			c.replies = append(c.replies, concReply(c.kind, c.pending[:n]))
-			c.readyAt = append(c.readyAt, time.Now().Add(c.latency))
+			if !concSilent(c.kind, c.pending[:n]) { // a unit that is switched off never answers
+				c.replies = append(c.replies, concReply(c.kind, c.pending[:n]))
+				c.readyAt = append(c.readyAt, time.Now().Add(c.latency))
+			}
 			c.pending = append([]byte{}, c.pending[n:]...)
 		}
 		c.mu.Unlock()
@@ -171,22 +197,39 @@ func (c *memConn) Write(p []byte) (int, error) {
 func (c *memConn) Read(p []byte) (int, error) {
 	c.enter(false)
 	defer c.exit()
-	c.mu.Lock()
-	defer c.mu.Unlock()
-	if c.closed {
-		return 0, net.ErrClosed
+	block := c.blockRead
+	if block == 0 {
+		block = 500 * time.Microsecond
 	}
-	if len(c.replies) == 0 || time.Now().Before(c.readyAt[0]) {
-		// nothing to read yet: block as long as the client's per-read deadline (0.5 ms) would
-		c.mu.Unlock()
-		time.Sleep(500 * time.Microsecond)
+	deadline := time.Now().Add(block)
+	orphan := false
+	for {
 		c.mu.Lock()
-		return 0, os.ErrDeadlineExceeded
+		if c.inDo != nil && atomic.LoadInt32(c.inDo) == 0 && !orphan {
+			orphan = true // still reading although the Do that started this Read has returned
+			c.outsideDo++
+		}
+		if c.closed {
+			c.mu.Unlock()
+			return 0, net.ErrClosed
+		}
+		if len(c.replies) > 0 && !time.Now().Before(c.readyAt[0]) {
+			r := c.replies[0]
+			c.replies = c.replies[1:]
+			c.readyAt = c.readyAt[1:]
+			c.mu.Unlock()
+			return copy(p, r), nil
+		}
+		c.mu.Unlock()
+		left := time.Until(deadline)
+		if left <= 0 {
+			return 0, os.ErrDeadlineExceeded
+		}
+		if left > 500*time.Microsecond {
+			left = 500 * time.Microsecond
+		}
+		time.Sleep(left) // nothing to read yet: block
 	}
-	r := c.replies[0]
-	c.replies = c.replies[1:]
-	c.readyAt = c.readyAt[1:]
-	return copy(p, r), nil
 }
 
 // Close also drops what the device had queued (a request in flight loses its reply)
@@ -210,6 +253,12 @@ func (c *memConn) Flush() error {
 	defer c.mu.Unlock()
 	if c.closed {
 		return net.ErrClosed
+	}
+	// discard the input that has arrived and was not read
+	now := time.Now()
+	for len(c.replies) > 0 && !now.Before(c.readyAt[0]) {
+		c.replies = c.replies[1:]
+		c.readyAt = c.readyAt[1:]
 	}
 	return nil
 }
@@ -244,8 +293,8 @@ func (c *memConn) SetDeadline(t time.Time) error      { return c.deadline() }
 func (c *memConn) SetReadDeadline(t time.Time) error  { return c.deadline() }
 func (c *memConn) SetWriteDeadline(t time.Time) error { return c.deadline() }
 
-func (c *memConn) snapshot() (log []byte, overlaps, midClose int, closed bool) {
+func (c *memConn) snapshot() (log []byte, overlaps, midClose, outsideDo int, closed bool) {
 	c.mu.Lock()
 	defer c.mu.Unlock()
-	return append([]byte{}, c.log...), c.overlaps, c.midClose, c.closed
+	return append([]byte{}, c.log...), c.overlaps, c.midClose, c.outsideDo, c.closed
 }
